@@ -7,6 +7,12 @@ CLAIMS = {
  "C04": dict(ref="§4 C04",
    text="Proof (any number of components, every subset of free parameters): each row appended by jacobian equals the mathematical partial derivative of elliptical_gaussian's own expression w.r.t. that parameter (theta per degree), rows are in component-major documented order (loop invariant over the ghost index IDX), only varying parameters get rows; lmfit_jacobian = transpose((J/errs).B); covar_errors assigns stderr(i,p) = onesigma[IDX(i)+rank(i,p)] (loop invariant), leaves other stderr untouched, and composes the Fisher matrix as J^T inv(C) J or (JB)^T(JB).",
    note="floats as reals; numpy elementwise ops pointwise (generic pixel); linear algebra calls as structural matrix terms (inv/dot/diag/sqrt contracts assumed); derivative identities decided by the pyvc ring normaliser + z3"),
+ "C08": dict(ref="§4 C08",
+   text="Proof by induction over the representation invariant WF (valid integer ids, coherent demoted cache, no shared set objects): for an arbitrary well-formed region state with fully symbolic pixel sets, every public Region operation (add_pixels, get_demoted, _renorm, union incl. finer/coarser operands, without, intersect, symmetric_difference, get_area, __init__) preserves WF, has its set-algebra postcondition on the deepest-level view, leaves the other operand's view unchanged, and normalising operations leave no patch of sky represented twice. Set-iteration loops are cut by functional invariants over a ghost done-set. The depth is enumerated (1..3 quick, 1..4 thorough), contents are unbounded.",
+   note="bounded in depth (maxdepth enumerated), unbounded in content; python set semantics, healpy returns valid ids, pickle identity assumed; get_area = card(V)*A(D) not decided deductively (native cross-check only)"),
+ "C12": dict(ref="§4 C12",
+   text="Proof for every well-formed region state (symbolic sets, cache filled or not, depth 1..3/4): _uniq lists 4*4^d+p for all levels 1..maxdepth (encoding injective across levels), write_fits stores that list as int64 column NPIX in extension 1 with MOCORDER=maxdepth, ORDERING=NUNIQ; write_reg prints exactly one polygon per stored pixel built from healpy.boundaries(2**d, p, step=1, nest=True) with (ra/15, dec) per corner (set-loop invariant on the output multiset); save dumps the whole object and load returns it.",
+   note="bounded in depth; astropy fits writer, healpy.boundaries, SkyCoord formatting, pickle, sorted/map contracts assumed"),
  "C15": dict(ref="§4 C15",
    text="Proof for all shapes>=2 and factors>=1 (CDELT or CD headers): compress stores the decimation rows/cols and the documented header; expand∘compress never violates a RegularGridInterpolator precondition, restores shape, CRPIX, CDELT/CD, removes BN_*, and places every stored row k<nx at its true original row k*f (⇒ exact at nodes, complete cells interpolated between true corners); invalid factor ⇒ None; uncompressed input returned unchanged.",
    note="RegularGridInterpolator exactness/range/bilinearity, numpy slicing algebra, astropy header mapping assumed; float32 cast not modelled; floats as reals"),
